@@ -63,6 +63,40 @@ def _hashable_spec(v) -> bool:
     return True
 
 
+_IDENTITY_HASHED_TAGS = ("gen", "nolen", "opaque", "custmap", "itemsonly", "bytesio")
+
+
+def _identity_hashed(v) -> bool:
+    """Would the built object (or something inside it) hash by identity?  generators and the exotic classes, NaN floats and
+    NaN Decimals (hash(nan) is address based since Python 3.10)."""
+    if isinstance(v, list):
+        return any(_identity_hashed(x) for x in v)
+    if isinstance(v, dict):
+        tag = v.get("$")
+        if tag in _IDENTITY_HASHED_TAGS:
+            return True
+        if tag in ("float", "dec") and "nan" in str(v.get("s", "")).lower():
+            return True
+        if tag == "cx" and "nan" in (str(v.get("r", "")) + str(v.get("i", ""))).lower():
+            return True
+        return any(_identity_hashed(x) for x in v.values() if isinstance(x, (list, dict)))
+    return isinstance(v, float) and v != v
+
+
+def stable_sets(v):
+    """A set with two or more members keeps only content-hashed ones, so that two builds of one spec iterate in one order
+    (checks compare the results of separate loads of fresh builds; a one-member set keeps whatever it holds)."""
+    if isinstance(v, list):
+        return [stable_sets(x) for x in v]
+    if isinstance(v, dict):
+        out = {k: (stable_sets(x) if isinstance(x, (list, dict)) else x) for k, x in v.items()}
+        if out.get("$") in ("set", "fset") and len(out["v"]) >= 2:
+            kept = [x for x in out["v"] if not _identity_hashed(x)]
+            out["v"] = kept if kept else out["v"][:1]
+        return out
+    return v
+
+
 def _fix_keys(v):
     """dict-like specs need hashable keys."""
     return v
@@ -71,7 +105,7 @@ def _fix_keys(v):
 def st_soup(max_leaves: int = 10):
     leaves = st.one_of(st.sampled_from(_LEAVES), st.integers(), st.text(max_size=5),
                        st.floats(allow_nan=True, allow_infinity=True).map(tspec._fl))
-    return st.recursive(leaves, _wrap, max_leaves=max_leaves)
+    return st.recursive(leaves, _wrap, max_leaves=max_leaves).map(stable_sets)
 
 
 # --------------------------------------------------------------------------------- positions in a vspec tree
@@ -322,7 +356,7 @@ def st_near_valid(draw, tsp, max_mut: int = 3, layouts=None, root_structure=Fals
     for _ in range(k):
         v, op = mutate(draw, v, aimed=aimed)
         ops.append(op)
-    return v, ops
+    return stable_sets(v), ops
 
 
 def encode_any(o):
